@@ -128,7 +128,8 @@ def gen_doc(rng):
                 e.update(message=bytes(rng.getrandbits(8) for _ in range(ln)).hex(),
                          key=rng.choice([GOOD_KEY_RAW, GOOD_KEY_UNCOMP, GOOD_KEY_COMP, GOOD_KEY_RAW,
                                          good_hex(rng)]),
-                         auth_data=good_hex(rng), signature=good_hex(rng))
+                         auth_data=rng.choice([good_hex(rng), good_hex(rng), good_hex(rng), ""]),
+                         signature=good_hex(rng))
             else:
                 e.update(message=rng.choice(["QUJD", "QUJDRA==", "QU JD", "QUJDRA"]))
         els.append(e)
